@@ -78,6 +78,40 @@ class Sym:
         return hash(("Sym", self.name))
 
 
+class GDict(dict):
+    """a module-level dict.  `persistent`: some function of the module mutates it, i.e. it is state that survives between calls"""
+    persistent = False
+    gname = None
+
+
+class LenV:
+    """len() of a persistent table that earlier calls may have grown to any size >= base: comparisons are answered for the size
+    that makes a 'table is full' test true (that state is reachable: every call on a new key adds an entry)"""
+
+    def __init__(self, base):
+        self.base = base
+
+    def cmp(self, sym, k):
+        return {">=": True, ">": True, "<": False, "<=": False, "==": k >= self.base, "!=": k < self.base}[sym]
+
+
+_MUTATORS = ("clear", "pop", "popitem", "update", "setdefault", "append", "extend", "insert", "remove", "add", "discard")
+
+
+def module_mutates(module, name):
+    """does any code of the module store into / remove from / call a mutating method on the global `name`?"""
+    for n in ast.walk(module.tree):
+        if isinstance(n, (ast.Assign, ast.AugAssign, ast.Delete)):
+            targets = n.targets if isinstance(n, (ast.Assign, ast.Delete)) else [n.target]
+            for t in targets:
+                if isinstance(t, ast.Subscript) and isinstance(t.value, ast.Name) and t.value.id == name:
+                    return True
+        if (isinstance(n, ast.Call) and isinstance(n.func, ast.Attribute) and n.func.attr in _MUTATORS
+                and isinstance(n.func.value, ast.Name) and n.func.value.id == name):
+            return True
+    return False
+
+
 class NeedConcrete(AnalysisError):
     """the operation (a regular expression ...) cannot be given an abstract meaning on a name of unknown text; the caller may
     decide it on representative names instead"""
@@ -205,7 +239,10 @@ class StringEval:
     MAX_DEPTH = 8
     MAX_ITER = 12
 
-    def __init__(self, repo, folder, func, strip_as_prefix=False):
+    def __init__(self, repo, folder, func, strip_as_prefix=False, initial_state=None, size_mode="initial"):
+        self.gstate = {}                          # (module relpath, name) -> GDict: module-level tables, shared by the whole evaluation
+        self.initial_state = initial_state or {}  # contents to start from instead of the module's initial value
+        self.size_mode = size_mode                # 'initial' | 'grown' (persistent tables have been filled by earlier calls)
         self.repo = repo
         self.folder = folder
         self.func = func          # the entry function
@@ -330,6 +367,20 @@ class StringEval:
                     continue
             else:
                 self.block(s.orelse, env)
+        elif isinstance(s, ast.Delete):
+            for t in s.targets:
+                if not (isinstance(t, ast.Subscript) and not isinstance(t.slice, ast.Slice)):
+                    raise AnalysisError("del target outside the fragment")
+                base = self.expr(t.value, env)
+                k = self.expr(t.slice, env)
+                if not isinstance(base, dict):
+                    raise AnalysisError("del target outside the fragment")
+                if self.dict_get(base, k, _MISSING) is _MISSING:
+                    raise _Raised(s)
+                for kk in list(base):
+                    if kk == k:
+                        del base[kk]
+                self.events.append(("state-remove", s, getattr(base, "gname", None)))
         elif isinstance(s, ast.Break):
             raise _Break()
         elif isinstance(s, ast.Continue):
@@ -361,6 +412,17 @@ class StringEval:
         elif isinstance(t, (ast.Tuple, ast.List)) and isinstance(v, (list, tuple)) and len(v) == len(t.elts):
             for e, x in zip(t.elts, v):
                 self.assign(e, x, env, src)
+        elif isinstance(t, ast.Subscript) and not isinstance(t.slice, ast.Slice):
+            base = self.expr(t.value, env)
+            if not isinstance(base, dict):
+                raise AnalysisError("assignment target outside the fragment: %s" % ast.unparse(t))
+            k = self.expr(t.slice, env)
+            try:
+                existing = next((kk for kk in base if isinstance(kk, SStr) and isinstance(k, SStr) and self.equal(kk, k)), k)
+                base[existing] = v
+            except TypeError:
+                raise AnalysisError("unhashable table key: %s" % ast.unparse(t))
+            self.events.append(("state-write", t, getattr(base, "gname", None)))
         else:
             raise AnalysisError("assignment target outside the fragment: %s" % ast.unparse(t))
 
@@ -410,10 +472,23 @@ class StringEval:
             rx = self.regex_literal(r[2], r[1])
             if rx is not None:
                 return rx
+            key = (r[1].relpath, e.id)
+            if key in self.gstate:
+                return self.gstate[key]
             v = self.folder.fold(r[2], r[1])
             if isinstance(v, Unknown):
                 raise AnalysisError("global %s does not fold to a constant" % e.id)
-            return self.lift(v)
+            lv = self.lift(v)
+            if isinstance(lv, dict):
+                g = GDict(self.initial_state[key] if key in self.initial_state else lv)
+                g.gname = e.id
+                g.initial_keys = list(lv.keys())
+                g.persistent = module_mutates(r[1], e.id)
+                self.gstate[key] = g
+                return g
+            if isinstance(lv, list) and module_mutates(r[1], e.id):
+                raise AnalysisError("module-level list %s is mutated by the module: persistent state outside the fragment" % e.id)
+            return lv
         if e.id == "re" and self.module.imports.get("re") == ("re", None):
             return ("remodule",)
         if e.id in ("len", "str", "isinstance", "int", "list", "tuple"):
@@ -633,6 +708,11 @@ class StringEval:
         return True
 
     def compare(self, op, a, b, node):
+        if isinstance(a, LenV) or isinstance(b, LenV):
+            sym = self._SYM.get(type(op))
+            if sym is None or not isinstance(b if isinstance(a, LenV) else a, int):
+                raise AnalysisError("comparison of a table size outside the fragment: %s" % ast.unparse(node)[:80])
+            return a.cmp(sym, b) if isinstance(a, LenV) else b.cmp(self._FLIP[sym], a)
         if isinstance(a, Pos) or isinstance(b, Pos):
             return self.pos_compare(op, a, b, node)
         if isinstance(op, (ast.Is, ast.IsNot)):
@@ -820,6 +900,8 @@ class StringEval:
         if isinstance(fn, tuple) and fn[0] == "builtin":
             if fn[1] == "len" and len(args) == 1:
                 v = args[0]
+                if isinstance(v, GDict) and v.persistent and self.size_mode == "grown":
+                    return LenV(len(v))
                 if isinstance(v, (list, tuple, dict)):
                     return len(v)
                 if isinstance(v, SStr) and v.concrete():
@@ -894,6 +976,35 @@ class StringEval:
         if isinstance(recv, dict):
             if name == "get" and 1 <= len(args) <= 2:
                 return self.dict_get(recv, args[0], args[1] if len(args) > 1 else None)
+            gname = getattr(recv, "gname", None)
+            if name == "clear" and not args:
+                recv.clear()
+                self.events.append(("state-remove", node, gname))
+                return None
+            if name == "pop" and 1 <= len(args) <= 2:
+                v = self.dict_get(recv, args[0], _MISSING)
+                if v is _MISSING:
+                    if len(args) == 2:
+                        return args[1]
+                    raise _Raised(node)
+                for kk in list(recv):
+                    if kk == args[0]:
+                        del recv[kk]
+                self.events.append(("state-remove", node, gname))
+                return v
+            if name == "setdefault" and len(args) == 2:
+                v = self.dict_get(recv, args[0], _MISSING)
+                if v is _MISSING:
+                    recv[args[0]] = args[1]
+                    self.events.append(("state-write", node, gname))
+                    return args[1]
+                return v
+            if name == "update" and len(args) == 1 and isinstance(args[0], dict):
+                recv.update(args[0])
+                self.events.append(("state-write", node, gname))
+                return None
+            if name == "copy" and not args:
+                return dict(recv)
             raise AnalysisError("dict method %s outside the fragment" % name)
         if isinstance(recv, SStr):
             return self.str_method(recv, name, args, node)
